@@ -295,7 +295,7 @@ def job_count(job):
                     first = True
                     kinds = ['int', 'float', 'Fraction', 'ndarray', 'sympy', 'int']
                     if name == 'regf':
-                        kinds = ['int', 'float', 'Fraction', 'ndarray', 'int']
+                        kinds = ['int', 'float', 'Fraction', 'ndarray', 'sympy', 'int', 'sympy']
                     for kind in kinds:
                         a = mv_from(alg, ak, vals(kind, ak, 'a'))
                         b = mv_from(alg, bk, vals(kind, bk, 'b'))
